@@ -12,7 +12,6 @@ import (
 	"google.golang.org/protobuf/proto"
 
 	"verif/internal/mon"
-	"verif/internal/wire"
 )
 
 type viol struct{ key, what string }
@@ -198,15 +197,18 @@ func evaluate(c *Case, out *outcome, s liveSnap) verdict {
 		// narrowest reading of "within the limit": also the compressed frame
 		// (grpc-go itself bounds the frame length before inflating)
 		for i, enc := range c.Reqs {
-			if c.flagged(i) && len(wire.Gzip(enc))+gzipMargin(c) > Lr {
+			if c.flagged(i) && len(c.compress(enc))+gzipMargin(c) > Lr {
 				v.premiseB = false
 			}
 		}
-		if c.Flags == "1-nohdr" {
+		if c.Flags == "1-nohdr" || c.GzipMode == "isize" {
 			// compressed-flag without a negotiated encoding: an error is
 			// legitimate; only "no over-limit delivery" is obliged
 			v.premiseB = false
 		}
+	}
+	if c.GzipMode == "isize" {
+		v.premiseB = false // not a valid gzip stream: an error is legitimate
 	}
 	if v.premiseB {
 		rc := replyCodec(c)
@@ -294,7 +296,7 @@ func afterInflation(c *Case) string {
 		if !c.flagged(c.Probe) {
 			return " sent uncompressed with flag 0 on a stream that negotiated gzip"
 		}
-		n = len(wire.Gzip(c.Reqs[c.Probe]))
+		n = len(c.compress(c.Reqs[c.Probe]))
 	} else {
 		_, _, _, body := httpParts(c)
 		n = len(body)
@@ -606,7 +608,7 @@ func filler(l laneSpec, L int, i int, probe []byte, p padder) []byte {
 		if f == nil || len(f) > L {
 			continue
 		}
-		if l.gz && (l.proto != "http") && len(wire.Gzip(f)) > L {
+		if l.gz && (l.proto != "http") && len(gzipBytes(f)) > L {
 			continue
 		}
 		fm, ferr := decodeReq(l.codec, f)
@@ -623,7 +625,26 @@ func filler(l laneSpec, L int, i int, probe []byte, p padder) []byte {
 // independent of the stream-level encoding header.
 func (g *gen) runModes(e *env, l laneSpec, c *Case) {
 	g.run(e, c)
-	if !grpcFamily(c) || c.Transport != "inproc" {
+	if c.Transport != "inproc" {
+		return
+	}
+	if c.Gzip {
+		// the same compressed payloads built as multi-member gzip, and
+		// (over-limit only) with a forged ISIZE trailer
+		gm := []string{"multi"}
+		for _, m := range c.Reqs {
+			if len(m) > c.lrecv() {
+				gm = []string{"multi", "isize"}
+				break
+			}
+		}
+		for _, m := range gm {
+			cc := *c
+			cc.ID, cc.GzipMode = g.nextID(), m
+			g.run(e, &cc)
+		}
+	}
+	if !grpcFamily(c) {
 		return
 	}
 	var modes []string
@@ -650,6 +671,10 @@ func (g *gen) reqProbes(e *env, l laneSpec, rng *rand.Rand, sizes map[string]int
 		if n < 0 {
 			continue
 		}
+		nonFirstOnly := class == "3L/4"
+		if nonFirstOnly && !(l.proto == "http" && (l.shape == "cs" || l.shape == "bidi") && l.codec != "httpbody") {
+			continue
+		}
 		id := ""
 		mk := func() *Case { c := g.newCase(e, l, "req", class); id = c.ID; return c }
 		c := mk()
@@ -664,11 +689,13 @@ func (g *gen) reqProbes(e *env, l laneSpec, rng *rand.Rand, sizes map[string]int
 		}
 		if l.codec == "httpbody" {
 			c.Reqs, c.UploadLen = [][]byte{enc}, len(enc)
-			g.run(e, c)
+			g.runModes(e, l, c)
 			continue
 		}
 		c.Reqs, c.Probe, c.NRead = [][]byte{enc}, 0, 1
-		g.runModes(e, l, c)
+		if !nonFirstOnly {
+			g.runModes(e, l, c)
+		}
 		if !clientStreaming(c) {
 			continue
 		}
@@ -752,7 +779,7 @@ func (g *gen) replyProbes(e *env, l laneSpec, rng *rand.Rand) {
 						g.r.Count("reply_probe_skipped_no_request_fits_limit", 1)
 						continue
 					}
-					if grpcLane && l.gz && len(wire.Gzip(c.Reqs[0])) > e.lrecvEff() {
+					if grpcLane && l.gz && len(gzipBytes(c.Reqs[0])) > e.lrecvEff() {
 						// the request would not fit once compressed: send it
 						// uncompressed (flag 0), the reply is still compressed
 						c.Flags = "0"
@@ -867,7 +894,7 @@ func (g *gen) truncProbes(e *env, l laneSpec, rng *rand.Rand, with10L bool) {
 				if l.shape == "cs" {
 					// after one small in-limit message when one fits
 					f := []byte{0x0a, 0x02, 'f', '0'}
-					if len(f) <= L && !(l.gz && l.proto != "http" && len(wire.Gzip(f)) > L) {
+					if len(f) <= L && !(l.gz && l.proto != "http" && len(gzipBytes(f)) > L) {
 						c.Reqs, c.Probe, c.NRead = [][]byte{f, enc}, 1, 2
 					}
 				}
@@ -883,8 +910,8 @@ func (g *gen) truncProbes(e *env, l laneSpec, rng *rand.Rand, with10L bool) {
 
 func (g *gen) matrix(e *env, seed int, lanes []laneSpec, withPrefix bool) {
 	L := e.lrecvEff()
-	sizes := map[string]int{"L-1": L - 1, "L": L, "L+1": L + 1, "10L": 10 * L}
-	order := []string{"L-1", "L", "L+1", "10L"}
+	sizes := map[string]int{"L-1": L - 1, "L": L, "L+1": L + 1, "10L": 10 * L, "3L/4": 3 * L / 4}
+	order := []string{"L-1", "L", "L+1", "10L", "3L/4"} // 3L/4: non-first positions of HTTP streams only
 	for _, l := range lanes {
 		rng := g.r.Rand(fmt.Sprintf("payload/%d/%d/%d/%s/%s/%v/%s/%s/%d/%v", seed, e.lrecv, e.lsend, l.proto, l.codec, l.gz, l.shape, l.transport, l.frag, l.eofData))
 		if hasReqProbe(l.shape) {
